@@ -447,6 +447,16 @@ def np_array(ex, args, kwargs, node):
         r = Arr(z3.K(V.INT, to_z3(v.value, k)), [v.n], k, name="constlist")
         r.ghost.update(owner="fresh", corder=True)
         return r
+    if type(v).__name__ == "_ListMapRow":
+        # a python list with symbolic length: the 1-D array of its elements
+        kk = to_z3(v.key, "int")
+        lm = v.lm
+        k = lm.kind
+        if isinstance(dtype, DType) and ((dtype.is_float and k != "real") or (dtype.is_int and k != "int")):
+            raise Unsupported("np.asarray(list, dtype) with a converting dtype")
+        r = Arr.from_lambda([z3.Select(lm.len, kk)], k, lambda t, e=lm.elems: z3.Select(e, kk, t), name="row")
+        r.ghost.update(owner="fresh", corder=True)
+        return r
     if isinstance(v, (list, tuple)):
         if any(isinstance(x, Arr) for x in v):
             # stack of symbolic arrays along a new leading axis: kept as a Small of Arr leaves
@@ -639,6 +649,7 @@ def py_list(ex, args, kwargs, node):
         return list(v.keys())
     from .symexec import _ListMapValues
     if isinstance(v, _ListMapValues):
+        v.lm.as_rows = True           # list(d.values()): the list of the rows
         return v.lm
     raise Unsupported("list() of symbolic iterable")
 
@@ -967,7 +978,9 @@ def sp_forall(ex, args, kwargs, node):
             for a, v in zip(names, vs):
                 e2[a] = v
             r = ex.eval(pat.node.body, e2, _SpecFrame(ex))
-            return list(r) if isinstance(r, (list, tuple)) else [r]
+            if isinstance(r, tuple):
+                return [z3.MultiPattern(*r)]          # a tuple is ONE trigger made of several terms
+            return list(r) if isinstance(r, list) else [r]
     return forall_ranges(bs, body, patterns_fn=pats, names=names)
 
 
